@@ -30,9 +30,17 @@ func registerModule(mod *moduledata) {
 func registerModuleLockFree(tail **moduledata, mod *moduledata) {
     for {
         oldTail := loadModule(tail)
-        if casModule(tail, oldTail, mod) {
-            storeModule(&oldTail.next, mod)
+        // NOTICE: link first, then swing the tail (Michael-Scott queue). Swinging the tail
+        // first left a window in which a second registrant could append behind a module that
+        // was not linked yet and return while its own module was unreachable from the list:
+        // tracebacks, GC stack scans and stack copying could not resolve its frames.
+        if casModule(&oldTail.next, nil, mod) {
+            casModule(tail, oldTail, mod)
             break
+        }
+        // somebody has linked behind oldTail but not swung the tail yet: help, then retry
+        if next := loadModule(&oldTail.next); next != nil {
+            casModule(tail, oldTail, next)
         }
     }
 }
